@@ -311,7 +311,23 @@ def slow_poll_round_is_consumed_progressively(ctx):
     ctx.analysed(pt)
     loops = [n for n in body_walk(pt.node) if isinstance(n, ast.For) and isinstance(n.iter, ast.Name) and
              any(call_attr(c) == 'callPollFunc' for c in calls_in(n)) and any(isinstance(x, ast.Break) for st in n.body for x in walk_local(st))]
-    if not loops:
+    # index form: `while idx < len(round): item = round[idx] ... callPollFunc ... break` - the cursor has to move past the polled item too
+    cfg = CFG(pt.node, m, pt.module)
+    wl = []
+    for n in body_walk(pt.node):
+        if isinstance(n, ast.While) and any(call_attr(c) == 'callPollFunc' for c in calls_in(n)) and any(isinstance(x, ast.Break) for st in n.body for x in walk_local(st)):
+            for l, op, r in compare_ops(n.test):
+                if op in ('<', '<=') and l.isidentifier() and r.startswith('len('):
+                    wl.append((n, l))
+    for n, idx in wl:
+        incs = {i for x in walk_local(n) if isinstance(x, ast.AugAssign) and isinstance(x.op, ast.Add) and src(x.target) == idx for i in cfg.ids(x)}
+        polls = {i for c in calls_in(n) if call_attr(c) == 'callPollFunc' for i in cfg.node_of(c)}
+        brks = {i for x in walk_local(n) if isinstance(x, ast.Break) for i in cfg.ids(x)}
+        ok = bool(incs) and (cfg.all_paths_pass(list(polls), list(brks), incs, exc=False) or all(cfg.dominates(list(incs), i) for i in polls))
+        ctx.check(ok, f'{pt.qualname}:slow poll round moves past the polled parameter', n, f'`{idx} += 1` on the path of the polled parameter',
+                  f'the cursor `{idx}` is not advanced for the parameter that was just polled: a parameter whose read keeps failing with the same error '
+                  '(its timestamp is then not refreshed) is picked again on every sweep - the parameters behind it, of all modules of the thread, are never polled again', pt)
+    if not loops and not wl:
         ctx.undecided(f'{pt.qualname}:slow poll round', pt.node, 'no one-poll-per-turn loop recognised', pt)
         return
     for l in loops:
